@@ -1,5 +1,6 @@
 import ArrProofs.Lemmas.Index
 import ArrProofs.Lemmas.C02Ext
+import ArrProofs.Lemmas.GenCore
 /-!
 # C02 — coordinates and flat positions are a row-major bijection
 
@@ -601,5 +602,78 @@ example : (⟨List.range 4, [4]⟩ : Arr Nat).indicesAt [3, 3, 0] = .ok ⟨[3, 3
 -- zero-length axes: rows of an empty array are empty rows; the first axis of length 0 has no row 0
 example : (⟨[], [2, 0]⟩ : Arr Nat).indicesAt [1, 0, 1] = .ok ⟨[], [3, 0]⟩ := by decide
 example : (⟨[], [0, 0]⟩ : Arr Nat).indicesAt [0] = .err .OutOfBounds := by decide
+
+/-! ## The same properties for the code as TRANSLATED FROM THE SOURCE
+
+`ArrModel.Gen.Core.Array_index_at`, `Array_index_to_coord`, `Array_at` are regenerated from `src/core/operations/indexing.rs`
+by `tools/rs2lean.py` on every run; `ArrProofs/Lemmas/GenCore.lean` proves them equal to the hand-written model for all
+inputs, so every theorem above transfers.  A change of the Rust source that alters the behaviour breaks one of these. -/
+
+open ArrModel.Gen.Core in
+/-- **index_at (translated source) accepts exactly the in-range coordinate vectors**, and the answer is the row-major position -/
+theorem gen_index_at_ok_iff (a : Arr α) (c : List Nat) (i : Nat) :
+    Array_index_at a c = .ok i ↔ (inRange a.shape c = true ∧ i = ravel a.shape c) := by
+  rw [index_at_eq]; exact indexAt_ok_iff a c i
+
+open ArrModel.Gen.Core in
+/-- … every other input is refused with an error value, never a panic, never a position -/
+theorem gen_index_at_err_iff (a : Arr α) (c : List Nat) :
+    Array_index_at a c = .err .ParameterError ↔ inRange a.shape c = false := by
+  rw [index_at_eq]; exact indexAt_err_iff a c
+
+open ArrModel.Gen.Core in
+theorem gen_index_at_never_panics (a : Arr α) (c : List Nat) : Array_index_at a c ≠ .panic := by
+  rw [index_at_eq]; exact indexAt_never_panics a c
+
+open ArrModel.Gen.Core in
+/-- **index_to_coord (translated source)**: defined exactly below the length; the answer is the structural unravel -/
+theorem gen_index_to_coord_ok (a : Arr α) (hwf : a.WF) (i : Nat) (h : i < a.len) :
+    Array_index_to_coord a i = .ok (unravel a.shape i) := by
+  rw [index_to_coord_eq a hwf]; exact indexToCoord_ok a hwf i h
+
+open ArrModel.Gen.Core in
+theorem gen_index_to_coord_err (a : Arr α) (i : Nat) (h : a.len ≤ i) :
+    Array_index_to_coord a i = .err .ParameterError := by
+  rw [index_to_coord_eq' a i (.inr h)]; exact indexToCoord_err a i h
+
+open ArrModel.Gen.Core in
+/-- **mutually inverse, 1**: position → coordinates → position, through the translated functions -/
+theorem gen_index_at_index_to_coord (a : Arr α) (hwf : a.WF) (i : Nat) (h : i < a.len) :
+    (Array_index_to_coord a i >>= Array_index_at a) = .ok i := by
+  rw [index_to_coord_eq a hwf]
+  have : Array_index_at a = a.indexAt := funext (index_at_eq a)
+  rw [this]; exact indexAt_indexToCoord a hwf i h
+
+open ArrModel.Gen.Core in
+/-- **mutually inverse, 2**: coordinates → position → coordinates -/
+theorem gen_index_to_coord_index_at (a : Arr α) (hwf : a.WF) (c : List Nat) (h : inRange a.shape c = true) :
+    (Array_index_at a c >>= Array_index_to_coord a) = .ok c := by
+  rw [index_at_eq]
+  have : Array_index_to_coord a = a.indexToCoord := funext (index_to_coord_eq a hwf)
+  rw [this]; exact indexToCoord_indexAt a hwf c h
+
+open ArrModel.Gen.Core in
+/-- **row-major monotone**: the translated `index_at` grows strictly with the lexicographic order of the coordinates -/
+theorem gen_index_at_strictMono (a : Arr α) (c c' : List Nat) (i i' : Nat)
+    (h : Array_index_at a c = .ok i) (h' : Array_index_at a c' = .ok i') (hlt : lexLt c c' = true) : i < i' := by
+  obtain ⟨hr, rfl⟩ := (gen_index_at_ok_iff a c i).1 h
+  obtain ⟨hr', rfl⟩ := (gen_index_at_ok_iff a c' i').1 h'
+  exact ravel_strictMono a.shape c c' hr hr' hlt
+
+open ArrModel.Gen.Core in
+/-- **`at` (translated source) returns the element stored at the row-major position** of an in-range coordinate vector … -/
+theorem gen_at_ok (a : Arr α) (hwf : a.WF) (c : List Nat) (h : inRange a.shape c = true) :
+    ∃ x, Array_at a c = .ok x ∧ a.elems[ravel a.shape c]? = some x := by
+  rw [at_eq]; exact atc_ok a hwf c h
+
+open ArrModel.Gen.Core in
+/-- … and refuses every other one with an error value -/
+theorem gen_at_err (a : Arr α) (c : List Nat) (h : inRange a.shape c = false) :
+    Array_at a c = .err .ParameterError := by
+  rw [at_eq]; exact atc_err a c h
+
+example : ArrModel.Gen.Core.Array_index_at (⟨List.range 24, [2, 3, 4]⟩ : Arr Nat) [1, 2, 3] = .ok 23 := by decide
+example : ArrModel.Gen.Core.Array_index_to_coord (⟨List.range 24, [2, 3, 4]⟩ : Arr Nat) 23 = .ok [1, 2, 3] := by decide
+example : ArrModel.Gen.Core.Array_at (⟨List.range 24, [2, 3, 4]⟩ : Arr Nat) [1, 3, 0] = .err .ParameterError := by decide
 
 end ArrModel.C02
